@@ -105,14 +105,14 @@ Qed.
 Lemma is_ws_nz b lo hi : (forall i, lo <= i < hi -> is_ws (getz b i) = true) -> nzr b lo hi.
 Proof. intros H i Hi E. specialize (H i Hi). rewrite E in H. discriminate. Qed.
 
-Lemma name_nz eq b lo hi : (forall i, lo <= i < hi -> name_stop eq (getz b i) (getz b (i + 1)) = false) -> nzr b lo hi.
+Lemma name_nz pi eq b lo hi : (forall i, lo <= i < hi -> name_stop pi eq (getz b i) (getz b (i + 1)) = false) -> nzr b lo hi.
 Proof. intros H i Hi. eapply name_stop_false_nz. apply H. exact Hi. Qed.
 
-Lemma shift_start_tag_spec z : lx_wf z ->
-  exists r, shift_start_tag z = Some r /\ shifted z r.
+Lemma shift_start_tag_spec pi z : lx_wf z ->
+  exists r, shift_start_tag pi z = Some r /\ shifted z r.
 Proof.
   intros H. pose proof (wf_range z H) as Hr. unfold shift_start_tag.
-  destruct (scan_name_lx false z H) as (n & Hn & H0 & H1 & H2 & H3). rewrite Hn. cbn [option_bind].
+  destruct (scan_name_lx pi false z H) as (n & Hn & H0 & H1 & H2 & H3). rewrite Hn. cbn [option_bind].
   assert (A : adv z (mv z n)) by (apply adv_mv; try assumption; eapply name_nz; exact H2).
   pose proof (adv_wf _ _ H A) as W.
   rewrite lex_sub_wf by (try assumption; unfold mark; cbn [lpos lstart mv]; lia). cbn [option_bind].
@@ -352,18 +352,17 @@ Proof.
     destruct ((lo <=? i) && (i <? hi)); [|exact B5]. intros E0. rewrite E0 in B5. apply B5. reflexivity.
 Qed.
 
-Lemma quoted_value_spec delim z : lx_wf z -> delim <> 0 ->
-  exists n z', quoted_value delim z = Some z' /\ 0 <= n /\
+Lemma quoted_value_spec pi delim z : lx_wf z -> delim <> 0 ->
+  exists n z', quoted_value pi delim z = Some z' /\ 0 <= n /\
     advw z z' (lpos z) (lpos z + n) /\
-    (lpos z' = lpos z + n + 1 /\ getz (lbuf z) (lpos z + n) = delim \/
-     lpos z' = lpos z + n /\ getz (lbuf z) (lpos z + n) = 0).
+    (lpos z' = lpos z + n + 1 /\ getz (lbuf z) (lpos z + n) = delim \/ lpos z' = lpos z + n).
 Proof.
   intros H Hd. pose proof (wf_range z H) as Hr. unfold quoted_value.
-  destruct (scan_while_lx (until delim) z H (until_0 delim)) as (n & Hn & H0 & H1 & H2 & H3).
+  destruct (scan_quoted_lx pi delim z H) as (n & Hn & H0 & H1 & H2 & H3).
   rewrite Hn. cbn [option_bind]. exists n.
   set (z1 := mkLx (norm_range (lbuf z) (lpos z) (lpos z + n)) (lpos z + n) (lstart z)).
   assert (A : advw z z1 (lpos z) (lpos z + n)).
-  { unfold advw, z1. cbn [lbuf lstart lpos]. repeat split; try lia. eapply until_nz. exact H2. }
+  { unfold advw, z1. cbn [lbuf lstart lpos]. repeat split; try lia. exact H2. }
   pose proof (advw_wf _ _ _ _ H A) as W. pose proof (advw_len _ _ _ _ H A) as E.
   rewrite (pk_getz z1 0 W) by (rewrite E; cbn [lpos z1]; lia). cbn [option_bind].
   assert (Ec : getz (lbuf z1) (lpos z1 + 0) = getz (lbuf z) (lpos z + n)).
@@ -371,14 +370,13 @@ Proof.
     replace (lpos z + n + 0) with (lpos z + n) by lia.
     destruct (Z.ltb_spec (lpos z + n) (lpos z + n)); [lia|]. rewrite andb_false_r. reflexivity. }
   rewrite Ec. set (c := getz (lbuf z) (lpos z + n)) in *.
-  unfold until in H3. destruct (Z.eqb_spec c delim) as [E1|E1].
+  destruct (Z.eqb_spec c delim) as [E1|E1].
   - eexists. split; [reflexivity|]. split; [exact H0|]. split.
     + eapply advw_trans_adv_r; [exact H|exact A|]. apply adv_mvk; [exact W|lia|].
       intros j Hj. replace j with 0 by lia. rewrite Ec. fold c. lia.
     + left. cbn [lpos mv z1]. split; [lia|exact E1].
   - eexists. split; [reflexivity|]. split; [exact H0|]. split; [exact A|].
-    right. cbn [lpos z1]. split; [reflexivity|]. cbn [orb negb] in H3.
-    destruct (Z.eqb_spec c 0); [assumption|discriminate].
+    right. reflexivity.
 Qed.
 
 (* ---- shiftAttribute ------------------------------------------------------------------------------------ *)
@@ -394,16 +392,16 @@ Proof.
   intros H. pose proof (wf_range z H). rewrite pk_getz by (try assumption; lia). do 2 f_equal. lia.
 Qed.
 
-Lemma shift_attribute_spec z : lx_wf z ->
-  (name_stop true (getz (lbuf z) (lpos z)) (getz (lbuf z) (lpos z + 1)) = false \/ getz (lbuf z) (lpos z) = 61) ->
+Lemma shift_attribute_spec pi z : lx_wf z ->
+  (name_stop pi true (getz (lbuf z) (lpos z)) (getz (lbuf z) (lpos z + 1)) = false \/ getz (lbuf z) (lpos z) = 61) ->
   exists t a tok z' zf lo hi,
-    shift_attribute z = Some (Some t, a, tok, z') /\ z' = skip zf /\ tok = (lstart z, lpos zf) /\
+    shift_attribute pi z = Some (Some t, a, tok, z') /\ z' = skip zf /\ tok = (lstart z, lpos zf) /\
     advw z zf lo hi /\ lpos z < lpos zf /\
     sl_in (Some t) (lpos z) (lpos zf) /\ sl_in a (lpos z) (lpos zf) /\
     (lo < hi -> exists aa ab, a = Some (aa, ab) /\ lo = aa + 1 /\ hi <= ab /\ is_quote (getz (lbuf z) aa)).
 Proof.
   intros H Hentry. pose proof (wf_range z H) as Hr. unfold shift_attribute.
-  destruct (scan_name_lx true z H) as (n1 & Hn1 & N0 & N1 & N2 & N3). rewrite Hn1. cbn [option_bind].
+  destruct (scan_name_lx pi true z H) as (n1 & Hn1 & N0 & N1 & N2 & N3). rewrite Hn1. cbn [option_bind].
   assert (A1 : adv z (mv z n1)) by (apply adv_mv; try assumption; eapply name_nz; exact N2).
   pose proof (adv_wf _ _ H A1) as W1.
   destruct (scan_while_lx is_ws (mv z n1) W1 is_ws_0) as (n2 & Hn2 & M0 & M1 & M2 & M3). rewrite Hn2. cbn [option_bind].
@@ -437,7 +435,7 @@ Proof.
       assert (Hq : is_quote delim) by (unfold is_quote; lia).
       assert (A5 : adv z4 (mv z4 1)) by (apply adv_mv1; [assumption|fold delim; unfold is_quote in Hq; lia]).
       pose proof (adv_wf _ _ W4 A5) as W5. pose proof (adv_trans _ _ _ A14 A5) as A15.
-      destruct (quoted_value_spec delim (mv z4 1) W5 ltac:(unfold is_quote in Hq; lia)) as (n & z6 & Hqv & Q0 & Q1 & Q2).
+      destruct (quoted_value_spec pi delim (mv z4 1) W5 ltac:(unfold is_quote in Hq; lia)) as (n & z6 & Hqv & Q0 & Q1 & Q2).
       rewrite Hqv. cbn [option_bind].
       pose proof (advw_trans_adv _ _ _ _ _ H A15 Q1) as A16.
       pose proof (advw_wf _ _ _ _ H A16) as W6.
@@ -453,7 +451,7 @@ Proof.
       intros _. do 2 eexists. split; [reflexivity|]. split; [lia|]. split; [lia|].
       replace (lstart z + (lpos z4 - lstart z4)) with (lpos z4) by lia. rewrite <- B4b. exact Hq.
     + (* unquoted *)
-      destruct (scan_name_lx false z4 W4) as (n4 & Hn4 & L0 & L1 & L2 & L3). rewrite Hn4. cbn [option_bind].
+      destruct (scan_name_lx pi false z4 W4) as (n4 & Hn4 & L0 & L1 & L2 & L3). rewrite Hn4. cbn [option_bind].
       assert (A5 : adv z4 (mv z4 n4)) by (apply adv_mv; try assumption; eapply name_nz; exact L2).
       pose proof (adv_wf _ _ W4 A5) as W5. pose proof (adv_trans _ _ _ A14 A5) as A15.
       destruct A15 as (C1 & C2 & C3 & C4 & C5). cbn [lpos mv] in *.
@@ -525,6 +523,9 @@ Definition opens_tag (ty : ttype) : bool :=
 Definition is_markup (ty : ttype) : bool :=
   match ty with TEndTag | TComment | TCdata | TDoctype | TStartTag | TStartTagPI => true | _ => false end.
 
+(* inPI after a markup token *)
+Definition pi_after (pi : bool) (ty : ttype) : bool := match ty with TStartTagPI => true | _ => pi end.
+
 Definition ws_run (b : list Z) (lo hi : Z) : Prop := forall i, lo <= i < hi -> is_ws (getz b i) = true.
 
 (* The six ways a call of Next ends, with what each does to the state. *)
@@ -532,33 +533,33 @@ Inductive view (s : xst) : ttype -> sl -> xst -> Prop :=
 | V_err_tag z1 :
     xin s = true -> adv (xr s) z1 -> ws_run (lbuf (xr s)) (lpos (xr s)) (lpos z1) ->
     getz (lbuf (xr s)) (lpos z1) = 0 ->
-    view s TError None (mkX z1 (null_err z1 (xerr s)) true None None)
+    view s TError None (mkX z1 (null_err z1 (xerr s)) true (xpi s) None None)
 | V_attr z1 t a zf lo hi :
     xin s = true -> adv (xr s) z1 -> ws_run (lbuf (xr s)) (lpos (xr s)) (lpos z1) ->
     advw z1 zf lo hi -> lpos z1 < lpos zf ->
     sl_in (Some t) (lpos z1) (lpos zf) -> sl_in a (lpos z1) (lpos zf) ->
     (lo < hi -> exists aa ab, a = Some (aa, ab) /\ lo = aa + 1 /\ hi <= ab /\ is_quote (getz (lbuf (xr s)) aa)) ->
-    view s TAttribute (Some (lstart (xr s), lpos zf)) (mkX (skip zf) (xerr s) true (Some t) a)
+    view s TAttribute (Some (lstart (xr s), lpos zf)) (mkX (skip zf) (xerr s) true (xpi s) (Some t) a)
 | V_closer z1 ty k :
     xin s = true -> adv (xr s) z1 -> ws_run (lbuf (xr s)) (lpos (xr s)) (lpos z1) ->
     adv z1 (mv z1 k) ->
     (ty = TStartTagClose /\ k = 1 /\ getz (lbuf (xr s)) (lpos z1) = 62 \/
      ty = TStartTagCloseVoid /\ k = 2 /\ getz (lbuf (xr s)) (lpos z1) = 47 /\ getz (lbuf (xr s)) (lpos z1 + 1) = 62 \/
      ty = TStartTagClosePI /\ k = 2 /\ getz (lbuf (xr s)) (lpos z1) = 63 /\ getz (lbuf (xr s)) (lpos z1 + 1) = 62) ->
-    view s ty (Some (lpos z1, lpos z1 + k)) (mkX (skip (mv (skip z1) k)) (xerr s) false None None)
+    view s ty (Some (lpos z1, lpos z1 + k)) (mkX (skip (mv (skip z1) k)) (xerr s) false false None None)
 | V_text z1 :
     xin s = false -> adv (xr s) z1 -> lstart (xr s) < lpos z1 ->
     (getz (lbuf (xr s)) (lpos z1) = 60 \/ getz (lbuf (xr s)) (lpos z1) = 0) ->
     (forall i, lpos (xr s) <= i < lpos z1 -> getz (lbuf (xr s)) i <> 60) ->
     view s TText (Some (lstart (xr s), lpos z1))
-         (mkX (skip z1) (xerr s) false (Some (lstart (xr s), lpos z1)) (xattr s))
+         (mkX (skip z1) (xerr s) false (xpi s) (Some (lstart (xr s), lpos z1)) (xattr s))
 | V_markup ty zf t :
     xin s = false -> lstart (xr s) = lpos (xr s) -> getz (lbuf (xr s)) (lpos (xr s)) = 60 ->
     is_markup ty = true -> adv (xr s) zf -> lpos (xr s) < lpos zf -> sl_in t (lstart (xr s)) (lpos zf) ->
-    view s ty (Some (lstart (xr s), lpos zf)) (mkX (skip zf) (xerr s) (opens_tag ty) t (xattr s))
+    view s ty (Some (lstart (xr s), lpos zf)) (mkX (skip zf) (xerr s) (opens_tag ty) (pi_after (xpi s) ty) t (xattr s))
 | V_err_text :
     xin s = false -> lstart (xr s) = lpos (xr s) -> getz (lbuf (xr s)) (lpos (xr s)) = 0 ->
-    view s TError None (mkX (xr s) (null_err (xr s) (xerr s)) false None (xattr s)).
+    view s TError None (mkX (xr s) (null_err (xr s) (xerr s)) false (xpi s) None (xattr s)).
 
 Lemma mv_0 z : mv z 0 = z.
 Proof. destruct z as [b p st]. unfold mv. cbn [lbuf lpos lstart]. f_equal. lia. Qed.
@@ -567,7 +568,7 @@ Proof. destruct z as [b p st]. unfold mv. cbn [lbuf lpos lstart]. f_equal. lia. 
 Lemma view_markup s ty z0 r :
   xin s = false -> lstart (xr s) = lpos (xr s) -> getz (lbuf (xr s)) (lpos (xr s)) = 60 ->
   is_markup ty = true -> adv (xr s) z0 -> lpos (xr s) < lpos z0 -> shifted z0 r ->
-  view s ty (Some (snd (fst r))) (mkX (snd r) (xerr s) (opens_tag ty) (fst (fst r)) (xattr s)).
+  view s ty (Some (snd (fst r))) (mkX (snd r) (xerr s) (opens_tag ty) (pi_after (xpi s) ty) (fst (fst r)) (xattr s)).
 Proof.
   intros Hin Hs Hc Hm A Hp Sr. destruct (shifted_adv _ _ _ A Sr) as (zf & A2 & R1 & R2 & R3).
   destruct Sr as (zf' & B1 & B2 & _). rewrite R1, R2.
@@ -579,8 +580,8 @@ Qed.
 
 Theorem next_view s : lx_wf (xr s) -> exists ty tok s', next s = Some (ty, tok, s') /\ view s ty tok s'.
 Proof.
-  destruct s as [z e i tx ax]. cbn [xr]. intros H. pose proof (wf_range z H) as Hr.
-  unfold next. cbn [xr xerr xin xtext xattr]. destruct i.
+  destruct s as [z e i p tx ax]. cbn [xr]. intros H. pose proof (wf_range z H) as Hr.
+  unfold next. cbn [xr xerr xin xpi xtext xattr]. destruct i.
   - (* inside a tag *)
     destruct (scan_while_lx is_ws z H is_ws_0) as (n & Hn & N0 & N1 & N2 & N3). rewrite Hn. cbn [option_bind].
     assert (A : adv z (mv z n)) by (apply adv_mv; try assumption; eapply is_ws_nz; exact N2).
@@ -588,7 +589,7 @@ Proof.
     rewrite (pk0 _ W). cbn [option_bind]. cbn [lbuf lpos mv] in *.
     set (c := getz (lbuf z) (lpos z + n)) in *.
     destruct (Z.eqb_spec c 0) as [E0|E0].
-    { do 3 eexists. split; [reflexivity|]. apply V_err_tag; cbn [xr xin lbuf lpos mv]; try assumption; reflexivity. }
+    { do 3 eexists. split; [reflexivity|]. apply (V_err_tag (mkX z e true p tx ax)); cbn [xr xin lbuf lpos mv]; try assumption; reflexivity. }
     assert (Hlt : lpos z + n < lx_len z) by (apply nz_lt; [assumption|lia|fold c; assumption]).
     assert (Hpk1 : pk (mv z n) 1 = Some (getz (lbuf z) (lpos z + n + 1))).
     { rewrite pk_getz by (try assumption; rewrite (adv_len _ _ A); cbn [lpos mv]; lia). reflexivity. }
@@ -599,7 +600,7 @@ Proof.
                 ty = TStartTagCloseVoid /\ k = 2 /\ c = 47 /\ c1 = 62 \/
                 ty = TStartTagClosePI /\ k = 2 /\ c = 63 /\ c1 = 62) ->
                exists sh, shift_c (mv (skip (mv z n)) k) = Some sh /\
-                 view (mkX z e true tx ax) ty (Some (fst sh)) (mkX (snd sh) e false None None)).
+                 view (mkX z e true p tx ax) ty (Some (fst sh)) (mkX (snd sh) e false false None None)).
     { intros ty k Hk.
       assert (Ak : adv (mv z n) (mv (mv z n) k)).
       { apply adv_mvk; [assumption|lia|]. intros j Hj. cbn [lbuf lpos mv].
@@ -610,17 +611,31 @@ Proof.
       { pose proof (adv_wf _ _ W Ak) as Wk. pose proof (wf_range _ Wk) as Hrk. destruct Wk as (Hb & _).
         unfold lx_wf, lx_len in *. cbn [lbuf lstart lpos mv skip] in *. split; [exact Hb|lia]. }
       rewrite shift_c_wf by exact Wk. eexists. split; [reflexivity|]. cbn [fst snd lstart lpos mv skip].
-      apply (V_closer (mkX z e true tx ax) (mv z n) ty k); cbn [xr xin lbuf lpos mv]; try assumption; try reflexivity. }
+      apply (V_closer (mkX z e true p tx ax) (mv z n) ty k); cbn [xr xin lbuf lpos mv]; try assumption; try reflexivity. }
     (* the attribute *)
-    assert (Hattr : (name_stop true c c1 = false \/ c = 61) ->
-               exists r, shift_attribute (mv z n) = Some r /\
-                 view (mkX z e true tx ax) TAttribute (Some (snd (fst r)))
-                      (mkX (snd r) e true (fst (fst (fst r))) (snd (fst (fst r))))).
+    assert (Hattr : (name_stop p true c c1 = false \/ c = 61) ->
+               exists r, shift_attribute p (mv z n) = Some r /\
+                 view (mkX z e true p tx ax) TAttribute (Some (snd (fst r)))
+                      (mkX (snd r) e true p (fst (fst (fst r))) (snd (fst (fst r))))).
     { intros Hentry.
-      destruct (shift_attribute_spec (mv z n) W) as (t & a & tok & z' & zf & lo & hi & Hs & -> & -> & B1 & B2 & B3 & B4 & B5).
+      destruct (shift_attribute_spec p (mv z n) W) as (t & a & tok & z' & zf & lo & hi & Hs & -> & -> & B1 & B2 & B3 & B4 & B5).
       { cbn [lbuf lpos mv]. fold c c1. exact Hentry. }
       rewrite Hs. eexists. split; [reflexivity|]. cbn [fst snd lstart mv].
-      apply (V_attr (mkX z e true tx ax) (mv z n) t a zf lo hi); cbn [xr xin lbuf lpos mv] in *; try assumption; reflexivity. }
+      apply (V_attr (mkX z e true p tx ax) (mv z n) t a zf lo hi); cbn [xr xin lbuf lpos mv] in *; try assumption; reflexivity. }
+    assert (Hws : is_ws c = false) by (fold c in N3; exact N3).
+    destruct p.
+    { (* inside a processing instruction only ?> closes *)
+      destruct (Z.eqb_spec c 63) as [E1|E1].
+      - rewrite Hpk1. cbn [option_bind]. destruct (Z.eqb_spec c1 62) as [E3|E3]; cbn [negb].
+        + destruct (Z.eqb_spec c 47); [lia|]. destruct (Z.eqb_spec c 63); [|lia].
+          destruct (Hclose TStartTagClosePI 2) as (sh & Hsh & V); [right; right; repeat split; assumption|]. rewrite Hsh. cbn [option_bind].
+          do 3 eexists. split; [reflexivity|exact V].
+        + destruct Hattr as (r & Hra & V).
+          { left. unfold name_stop, tag_end_b, is_ws in *. lia. }
+          rewrite Hra. cbn [option_bind]. do 3 eexists. split; [reflexivity|exact V].
+      - cbn [option_bind]. destruct Hattr as (r & Hra & V).
+        { destruct (Z.eq_dec c 61); [right; assumption|left]. unfold name_stop, tag_end_b, is_ws in *. lia. }
+        rewrite Hra. cbn [option_bind]. do 3 eexists. split; [reflexivity|exact V]. }
     destruct (Z.eqb_spec c 62) as [E1|E1].
     { cbn [option_bind]. destruct (Z.eqb_spec c 47); [lia|]. destruct (Z.eqb_spec c 63); [lia|].
       destruct (Hclose TStartTagClose 1) as (sh & Hsh & V); [left; repeat split; assumption|]. rewrite Hsh. cbn [option_bind].
@@ -634,11 +649,11 @@ Proof.
            destruct (Hclose TStartTagClosePI 2) as (sh & Hsh & V); [right; right; repeat split; assumption|]. rewrite Hsh. cbn [option_bind].
            do 3 eexists. split; [reflexivity|exact V].
       * destruct Hattr as (r & Hra & V).
-        { left. unfold name_stop. lia. }
+        { left. unfold name_stop, tag_end_b. lia. }
         rewrite Hra. cbn [option_bind]. do 3 eexists. split; [reflexivity|exact V].
     + cbn [option_bind]. destruct Hattr as (r & Hra & V).
       { destruct (Z.eq_dec c 61); [right; assumption|left].
-        unfold is_ws in N3. fold c in N3. unfold name_stop. lia. }
+        unfold name_stop, tag_end_b, is_ws in *. lia. }
       rewrite Hra. cbn [option_bind]. do 3 eexists. split; [reflexivity|exact V].
   - (* character data / markup *)
     destruct (scan_while_lx (until 60) z H (until_0 60)) as (n & Hn & N0 & N1 & N2 & N3). rewrite Hn. cbn [option_bind].
@@ -650,7 +665,7 @@ Proof.
     destruct (Z.ltb_spec 0 (lpos z + n - lstart z)) as [Hpos|Hpos].
     { rewrite shift_c_wf by assumption. cbn [option_bind fst snd lstart lpos mv].
       do 3 eexists. split; [reflexivity|].
-      apply (V_text (mkX z e false tx ax) (mv z n)); cbn [xr xin lbuf lstart lpos mv]; try assumption; try lia.
+      apply (V_text (mkX z e false p tx ax) (mv z n)); cbn [xr xin lbuf lstart lpos mv]; try assumption; try lia.
       - fold c. unfold until in N3. lia.
       - intros j Hj. specialize (N2 j Hj). unfold until in N2. lia. }
     assert (n = 0) by lia. subst n. assert (Hs : lstart z = lpos z) by lia.
@@ -666,8 +681,8 @@ Proof.
         - replace (lpos z + 0) with (lpos z) by lia. rewrite Ec. lia.
         - fold c1. exact Hc1. }
       assert (Vm : forall ty z0 r, is_markup ty = true -> adv z z0 -> lpos z < lpos z0 -> shifted z0 r ->
-                 view (mkX z e false tx ax) ty (Some (snd (fst r))) (mkX (snd r) e (opens_tag ty) (fst (fst r)) ax)).
-      { intros ty z0 r Hm Az Hp Sr. apply (view_markup (mkX z e false tx ax) ty z0 r); cbn [xr xin]; try assumption; try reflexivity. rewrite Ec. exact E1. }
+                 view (mkX z e false p tx ax) ty (Some (snd (fst r))) (mkX (snd r) e (opens_tag ty) (pi_after p ty) (fst (fst r)) ax)).
+      { intros ty z0 r Hm Az Hp Sr. apply (view_markup (mkX z e false p tx ax) ty z0 r); cbn [xr xin]; try assumption; try reflexivity. rewrite Ec. exact E1. }
       destruct (Z.eqb_spec c1 47) as [E2|E2].
       { specialize (A2 ltac:(lia)).
         destruct (shift_end_tag_spec (mv z 2) (adv_wf _ _ H A2)) as (r & Hrs & Sr).
@@ -677,7 +692,7 @@ Proof.
       assert (Hsp : exists sp, (if c1 =? 33 then bang (mv z 2) else Some None) = Some sp /\
                 match sp with
                 | None => True
-                | Some (ty, r) => view (mkX z e false tx ax) ty (Some (snd (fst r))) (mkX (snd r) e false (fst (fst r)) ax)
+                | Some (ty, r) => view (mkX z e false p tx ax) ty (Some (snd (fst r))) (mkX (snd r) e false p (fst (fst r)) ax)
                 end).
       { destruct (Z.eqb_spec c1 33) as [E3|E3]; [|eexists; split; [reflexivity|exact I]].
         specialize (A2 ltac:(lia)).
@@ -685,23 +700,23 @@ Proof.
         { unfold mark. cbn [lpos lstart mv]. lia. }
         rewrite Ho. eexists. split; [reflexivity|]. destruct o as [[ty r]|]; [|exact I].
         destruct Po as (Hty & Sr).
-        assert (Hm : is_markup ty = true /\ opens_tag ty = false) by (destruct Hty as [-> |[-> | ->]]; split; reflexivity).
-        destruct Hm as (Hm1 & Hm2).
-        assert (V : view (mkX z e false tx ax) ty (Some (snd (fst r))) (mkX (snd r) e (opens_tag ty) (fst (fst r)) ax))
+        assert (Hm : is_markup ty = true /\ opens_tag ty = false /\ pi_after p ty = p) by (destruct Hty as [-> |[-> | ->]]; repeat split; reflexivity).
+        destruct Hm as (Hm1 & Hm2 & Hm3).
+        assert (V : view (mkX z e false p tx ax) ty (Some (snd (fst r))) (mkX (snd r) e (opens_tag ty) (pi_after p ty) (fst (fst r)) ax))
           by (apply (Vm ty (mv z 2) r); cbn [lpos mv]; try assumption; lia).
-        rewrite Hm2 in V. exact V. }
+        rewrite Hm2, Hm3 in V. exact V. }
       destruct Hsp as (sp & Hsp & Psp). rewrite Hsp. cbn [option_bind].
       destruct sp as [[ty r]|].
       { do 3 eexists. split; [reflexivity|exact Psp]. }
       destruct (Z.eqb_spec c1 63) as [E4|E4].
       * specialize (A2 ltac:(lia)).
-        destruct (shift_start_tag_spec (mv z 2) (adv_wf _ _ H A2)) as (r & Hrs & Sr).
+        destruct (shift_start_tag_spec true (mv z 2) (adv_wf _ _ H A2)) as (r & Hrs & Sr).
         rewrite Hrs. cbn [option_bind]. do 3 eexists. split; [reflexivity|].
         apply (Vm TStartTagPI (mv z 2) r); cbn [lpos mv]; try assumption; try reflexivity; lia.
-      * destruct (shift_start_tag_spec (mv z 1) (adv_wf _ _ H A1)) as (r & Hrs & Sr).
+      * destruct (shift_start_tag_spec p (mv z 1) (adv_wf _ _ H A1)) as (r & Hrs & Sr).
         rewrite Hrs. cbn [option_bind]. do 3 eexists. split; [reflexivity|].
         apply (Vm TStartTag (mv z 1) r); cbn [lpos mv]; try assumption; try reflexivity; lia.
     + do 3 eexists. split; [reflexivity|].
-      apply (V_err_text (mkX z e false tx ax)); cbn [xr xin]; try assumption; try reflexivity.
+      apply (V_err_text (mkX z e false p tx ax)); cbn [xr xin]; try assumption; try reflexivity.
       rewrite Ec. unfold until in N3. lia.
 Qed.
